@@ -1252,15 +1252,17 @@ func verifC32() {
 					mres := c32Run(mv)
 					mf, _ := c32Has(c32Judge(mv, mres), f.Kind, f.Leg, f.Cat)
 					sig := fmt.Sprintf("%s|%s|%s|%s|stored=%s", f.Kind, c32LegName[f.Leg], mv.ep().Name, c32Sig(mv), mf.Place)
+					// the first worker to reach a signature builds its replay artefact while holding the lock, so
+					// that the violation is never registered without one
 					mu.Lock()
 					first := !minDone[sig]
 					minDone[sig] = true
-					mu.Unlock()
 					var replay any
 					if first {
 						// replay twice on fresh systems: identical observations or it is the harness
 						a, b := c32Exec(mv), c32Exec(mv)
 						if c32Obs(a) != c32Obs(b) || c32Obs(a) != c32Obs(mres) {
+							os.RemoveAll(c32Scratch)
 							ev.Nondeterminism(fmt.Sprintf("C32: %s gave different observations on replay: %s / %s / %s", mv, c32Obs(mres), c32Obs(a), c32Obs(b)))
 						}
 						rq := c32Build(mv)
@@ -1271,6 +1273,7 @@ func verifC32() {
 							"how_to_replay": "cd /verif && ./check C32 thorough (the case is a member of the enumerated space); caller: token granted write on db1.m1 only"}
 					}
 					run.Violate(sig, c32Describe(f.Kind, f.Leg), replay)
+					mu.Unlock()
 				}
 			}
 		}()
